@@ -171,7 +171,8 @@ class Ctx:
         if r["error"]:
             raise Infra("TLC %s: %s" % (r["name"], r["error"]))
         if expect_violation:
-            if r["violated"] != expect_violation:
+            exp = expect_violation if isinstance(expect_violation, (list, tuple, set)) else [expect_violation]
+            if r["violated"] not in exp:
                 raise Infra("TLC %s: expected the defect configuration to violate %s, got %r" %
                             (r["name"], expect_violation, r["violated"]))
         elif r["violated"]:
@@ -180,7 +181,7 @@ class Ctx:
         return r
 
     # ---- trace validation ----------------------------------------------
-    def validate_traces(self, trace_file, module, cfg_text, shards=12, timeout=240, env=None, max_rejects=2,
+    def validate_traces(self, trace_file, module, cfg_text, shards=12, timeout=240, env=None, max_rejects=4,
                         group_key="tr", jvm=""):
         """Validate a file of concatenated traces (events carry a trace id under group_key; the first event
         of each trace is its reset).  Returns (n_traces_accepted, rejects) where rejects is a list of
